@@ -5,6 +5,8 @@
 package main
 
 import (
+	"runtime"
+	"unsafe"
 	"bytes"
 	"crypto/elliptic"
 	"crypto/sha256"
@@ -33,6 +35,7 @@ import (
 	"github.com/cloudflare/circl/xof"
 	"github.com/cloudflare/circl/xof/k12"
 	"github.com/cloudflare/circl/zzverif/mldsaref"
+	"github.com/cloudflare/circl/zzverif/mlkemref"
 	"github.com/cloudflare/circl/zzverif/vlib"
 )
 
@@ -167,6 +170,32 @@ func fields(rng *rand.Rand, n int) {
 	copy(u[:], ones448)
 	copy(v[:], ones448)
 	ops448(u, v, " all-ones")
+	// every ordered pair of a small set of corner values (0, 1, p-1, p, p+1, the first non-canonical values, the maximum): differences and
+	// sums that need both reduction folds
+	corner := func(size int, pHex string) [][]byte {
+		p, _ := new(big.Int).SetString(pHex, 16)
+		w := new(big.Int).Lsh(big.NewInt(1), uint(8*size))
+		var out [][]byte
+		for _, v := range []*big.Int{big.NewInt(0), big.NewInt(1), big.NewInt(2), new(big.Int).Sub(p, big.NewInt(1)), p, new(big.Int).Add(p, big.NewInt(1)),
+			new(big.Int).Sub(w, big.NewInt(1)), new(big.Int).Sub(w, big.NewInt(2)), new(big.Int).Rsh(w, 1), new(big.Int).Lsh(big.NewInt(1), uint(4*size))} {
+			out = append(out, vlib.ToLE(v, size))
+		}
+		return out
+	}
+	for _, a := range corner(32, "7fffffffffffffffffffffffffffffffffffffffffffffffffffffffffffffed") {
+		for _, b := range corner(32, "7fffffffffffffffffffffffffffffffffffffffffffffffffffffffffffffed") {
+			copy(x[:], a)
+			copy(y[:], b)
+			ops25519(x, y, " corner")
+		}
+	}
+	for _, a := range corner(56, "fffffffffffffffffffffffffffffffffffffffffffffffffffffffeffffffffffffffffffffffffffffffffffffffffffffffffffffffff") {
+		for _, b := range corner(56, "fffffffffffffffffffffffffffffffffffffffffffffffffffffffeffffffffffffffffffffffffffffffffffffffffffffffffffffffff") {
+			copy(u[:], a)
+			copy(v[:], b)
+			ops448(u, v, " corner")
+		}
+	}
 	for i := 0; i < n; i++ {
 		copy(x[:], structured(rng, 32))
 		copy(y[:], structured(rng, 32))
@@ -356,8 +385,25 @@ func kems(rng *rand.Rand, n int, thorough bool) {
 				continue
 			}
 		}
-		for i := 0; i < reps; i++ {
+		// boundary seeds for the lattice KEMs: the LAST and one other matrix entry need more than three SHAKE128 blocks / more than 510
+		// bytes of their stream (where vectorised and scalar samplers hand over, and buffers are refilled)
+		var boundary [][]byte
+		for _, p := range mlkemref.All {
+			if p.Name == name {
+				for _, pos := range []int{p.K*p.K - 1, int(rng.Int31n(int32(p.K * p.K)))} {
+					for _, nb := range []int{504, 510} {
+						if d := p.BoundarySeed(vlib.Bytes(rng, 32), pos/p.K, pos%p.K, nb, 20000); d != nil {
+							boundary = append(boundary, append(d, vlib.Bytes(rng, 32)...))
+						}
+					}
+				}
+			}
+		}
+		for i := 0; i < reps+len(boundary); i++ {
 			seed := vlib.Bytes(rng, sch.SeedSize())
+			if i >= reps {
+				seed = boundary[i-reps]
+			}
 			pk, sk := sch.DeriveKeyPair(seed)
 			pkb, _ := pk.MarshalBinary()
 			skb, _ := sk.MarshalBinary()
@@ -516,11 +562,15 @@ func hashes(rng *rand.Rand, thorough bool) {
 				}
 			}
 			emit("keccakf1600", fmt.Sprintf("scalar turbo=%v (4 states)", turbo), [][]byte{inb}, outb)
-			// x4 / x2 when available, otherwise the scalar result of the same states (equal by definition)
-			outb4 := outb
-			if keccakf1600.IsEnabledX4() {
-				outb4 = nil
-				var s4 keccakf1600.StateX4
+			// the four-way state, whatever the CPU offers (Permute falls back to scalar code), placed at each of the four addresses modulo 32
+			// that an 8-byte-aligned variable can have: the state finds its 32-byte-aligned window itself
+			for k := 0; k < 4; k++ {
+				slab := make([]uint64, 4+4+int(unsafe.Sizeof(keccakf1600.StateX4{}))/8)
+				i0 := 0
+				for uintptr(unsafe.Pointer(&slab[i0]))%32 != 0 {
+					i0++
+				}
+				s4 := (*keccakf1600.StateX4)(unsafe.Pointer(&slab[i0+k]))
 				a := s4.Initialize(turbo)
 				for l := 0; l < 4; l++ {
 					for j := 0; j < 25; j++ {
@@ -528,13 +578,18 @@ func hashes(rng *rand.Rand, thorough bool) {
 					}
 				}
 				s4.Permute()
+				var outb4 []byte
 				for l := 0; l < 4; l++ {
 					for j := 0; j < 25; j++ {
 						outb4 = binary.LittleEndian.AppendUint64(outb4, a[4*j+l])
 					}
 				}
+				runtime.KeepAlive(slab)
+				emit("keccakf1600", fmt.Sprintf("x4 at %d mod 32 turbo=%v", 8*k, turbo), [][]byte{inb}, outb4)
+				if !bytes.Equal(outb4, outb) {
+					emit("keccakf1600", fmt.Sprintf("x4 at %d mod 32 turbo=%v DIFFERS FROM SCALAR", 8*k, turbo), [][]byte{inb}, []byte{byte(k)})
+				}
 			}
-			emit("keccakf1600", fmt.Sprintf("x4 or scalar turbo=%v", turbo), [][]byte{inb}, outb4)
 			outb2 := outb[:2*25*8]
 			if keccakf1600.IsEnabledX2() {
 				outb2 = nil
